@@ -299,6 +299,20 @@ def record_histories(ctx, n_hist):
 
 
 def validate_histories(ctx, traces):
+    # the binding must bite: a CANARY history - a recorded one in which an accepted assignment is relabelled "rejected"
+    # while the state still shows the new value (what a broken rollback looks like) - has to be rejected on every run
+    import copy
+
+    src = next((t for t in traces if any(e["op"] == "set" and e["out"] == "ok" for e in t["events"])), None)
+    if src is None:
+        raise TLCError("no recorded history with an accepted assignment: cannot build the canary")
+    can = copy.deepcopy(src)
+    can["id"] = len(traces) + 1
+    can["canary"] = True
+    k = next(i for i, e in enumerate(can["events"]) if e["op"] == "set" and e["out"] == "ok")
+    can["events"][k]["out"] = "rejected"
+    can["events"] = can["events"][: k + 1]
+    traces = list(traces) + [can]
     path = os.path.join(ctx.tmp, "wf-traces.json")
     with open(path, "w") as f:
         json.dump(traces, f)
@@ -308,13 +322,19 @@ def validate_histories(ctx, traces):
     for rj in res.emitted:
         if "reject" in rj:
             bad.setdefault(rj["reject"], rj)
+    if len(traces) not in bad:
+        raise TLCError("binding self-test failed: WavefunctionTrace accepted the canary history (an accepted assignment relabelled 'rejected')")
+    ctx.by_kind["canary histories rejected by the trace specification"] = 1
     for tid, rj in sorted(bad.items()):
         t = traces[tid - 1]
+        if t.get("canary"):
+            continue
         ctx.violation("trace:" + ",".join(sorted(rj["failed"])), "WavefunctionTrace rejects event %d of a recorded history: failed clause(s) %s\n history: %s" % (rj["at"], sorted(rj["failed"]), json.dumps(t["events"][: rj["at"]])[:1500]), {"k": "trace", "trace": t})
     if res.violated:
         ctx.violation("trace:property:" + ",".join(res.violated), "a recorded history violates %s\n%s" % (res.violated, "\n".join(res.trace[:40])), {"k": "trace"})
-    if not bad and not res.violated and res.distinct != total:
-        raise TLCError("WavefunctionTrace explored %d states, expected %d" % (res.distinct, total))
+    expected = sum(len(t["events"]) + 1 for i, t in enumerate(traces) if (i + 1) not in bad) + sum(rj["at"] for rj in bad.values())
+    if not res.violated and res.distinct != expected:
+        raise TLCError("WavefunctionTrace explored %d states, expected %d" % (res.distinct, expected))
     ctx.traces_validated += len(traces) - len(bad)
 
 
